@@ -35,6 +35,7 @@ pub fn base_spec(c: &Cfg, seed: u64) -> CaseSpec {
         rules: vec![],
         write_budget: None,
         max_events: (50 * (4 * n as usize + 8)).max(10_000),
+        pre_existing: 0,
     }
 }
 
@@ -429,5 +430,15 @@ pub fn fam_stale_volley(b: &Base, out: &mut Vec<CaseSpec>) {
                 }
             }
         }
+    }
+}
+
+/// the upload target already exists (overwrite mode) and is longer / shorter than the upload (receiver role)
+pub fn fam_pre_existing(b: &Base, out: &mut Vec<CaseSpec>) {
+    for (extra, en) in [(1u64, "+1"), (100, "+100"), (70_000, "+70000")] {
+        out.push(with(b, "preexisting", format!("longer{en}"), |s| s.pre_existing = s.len + extra));
+    }
+    if b.spec.len > 1 {
+        out.push(with(b, "preexisting", "shorter".to_string(), |s| s.pre_existing = s.len / 2 + 1));
     }
 }
